@@ -181,12 +181,17 @@ func (b *backend) List(ctx context.Context, r *proto.RangeRequest) (resp *proto.
 	return resp, nil
 }
 
-// encodeRangeBound translates a raw range bound into the internal key space. A bound of the form K+"\x00" - what
-// etcd clients use for "just after K": the continue key of a paginated list, the end of a single-key range - has
-// to sort AFTER every version of K, although "\x00" sorts before the byte that separates key and revision.
+// encodeRangeBound translates a raw range bound into the internal key space. Keys never contain a byte at or below
+// the byte that separates key and revision, bounds may: K+"\x00" is what etcd clients use for "just after K" (the
+// continue key of a paginated list, the end of a single-key range), and any bound P+c+... with c at or below the
+// separator lies, in raw byte order, after P and before every longer key starting with P. Such a bound has to sort
+// AFTER every version of P, although c sorts before (or at) the separator.
 func (b *backend) encodeRangeBound(raw []byte) []byte {
-	if n := len(raw); n > 0 && raw[n-1] == 0 {
-		return append(b.coder.EncodeObjectKey(raw[:n-1], math.MaxUint64), 0)
+	const keyRevisionSeparator = '$' // the coder's split byte
+	for i, c := range raw {
+		if c <= keyRevisionSeparator {
+			return append(b.coder.EncodeObjectKey(raw[:i], math.MaxUint64), 0)
+		}
 	}
 	return b.coder.EncodeObjectKey(raw, 0)
 }
